@@ -88,6 +88,19 @@ Example C08_nonvacuous :
   p_transpose c = Arr TChar [0; 3; 2]%nat [].
 Proof. vm_compute. repeat split; reflexivity. Qed.
 
+(** filled pervasion with empty rows (the inputs that crashed the interpreter before 0107489,
+    and the one that still does, C08-F1): the reference's answer is the padded, filled result *)
+Example C08_filled_pervasion_empty_rows :
+  let ones n := repeat (ENum 1) n in
+  p_perv2 PAdd (Some (ENum 0)) (Arr TNum [3; 0]%nat []) (Arr TNum [2; 4]%nat (ones 8%nat))
+    = Ok (Arr TNum [3; 4]%nat (ones 8%nat ++ repeat (ENum 0) 4%nat)) /\
+  p_perv2 PSub (Some (ENum 7)) (Arr TNum [2; 4]%nat (ones 8%nat)) (Arr TNum [3; 0]%nat [])
+    = Ok (Arr TNum [3; 4]%nat (repeat (ENum 6) 8%nat ++ repeat (ENum 0) 4%nat)) /\
+  p_perv2 PEq (Some (ENum 0)) (Arr TNum [2; 3; 0]%nat []) (Arr TNum [2; 2; 4]%nat (ones 16%nat))
+    = Ok (Arr TNum [2; 3; 4]%nat
+            (repeat (ENum 0) 8%nat ++ repeat (ENum 1) 4%nat ++ repeat (ENum 0) 8%nat ++ repeat (ENum 1) 4%nat)).
+Proof. vm_compute. repeat split; reflexivity. Qed.
+
 Print Assumptions C08_from_rows_rows.
 Print Assumptions C08_length_shape.
 Print Assumptions C08_shape_reverse.
